@@ -21,20 +21,36 @@ pub struct C18;
 struct Spaces {
     t1: Corpus,
     t3: Corpus,
+    t4: Corpus,
+    t5: Corpus,
+    t6: Corpus,
+}
+
+impl Spaces {
+    fn all(&self) -> [&Corpus; 5] {
+        [&self.t1, &self.t3, &self.t4, &self.t5, &self.t6]
+    }
 }
 
 fn spaces(tier: Tier) -> &'static Spaces {
     static Q: OnceLock<Spaces> = OnceLock::new();
     static T: OnceLock<Spaces> = OnceLock::new();
     match tier {
-        Tier::Quick => Q.get_or_init(|| Spaces { t1: corpus::t1(), t3: corpus::t3(corpus::t3_default(4)) }),
-        Tier::Thorough => T.get_or_init(|| Spaces { t1: corpus::t1(), t3: corpus::t3(corpus::t3_default(5)) }),
+        Tier::Quick => Q.get_or_init(|| Spaces { t1: corpus::t1(), t3: corpus::t3(corpus::t3_default(4)), t4: corpus::t4(6), t5: corpus::t5(4), t6: corpus::t6() }),
+        Tier::Thorough => T.get_or_init(|| Spaces { t1: corpus::t1(), t3: corpus::t3(corpus::t3_default(5)), t4: corpus::t4(8), t5: corpus::t5(6), t6: corpus::t6() }),
     }
 }
 
 fn locate(tier: Tier, idx: u64) -> (&'static Corpus, u64) {
     let s = spaces(tier);
-    if idx < s.t1.len() { (&s.t1, idx) } else { (&s.t3, idx - s.t1.len()) }
+    let mut i = idx;
+    for c in s.all() {
+        if i < c.len() {
+            return (c, i);
+        }
+        i -= c.len();
+    }
+    panic!("C18 index out of range")
 }
 
 // ---- text level rewrites ----------------------------------------------------------------------
@@ -84,25 +100,33 @@ pub fn text_rewrites(src: &str) -> Vec<Rewrite> {
     }
     let sig0 = significant(&toks);
     let mut out = vec![];
-    let mut push = |rule: &'static str, parts: Vec<String>, out: &mut Vec<Rewrite>| {
+    // `pure` edits replace layout by layout (whitespace by other whitespace, an annotation put inside whitespace): the
+    // significant tokens cannot change unless the lexer is wrong, so they are always applied and judged. Edits that
+    // remove whitespace or put some between two tokens may merge or split tokens: they are applied only when
+    // re-lexing shows the same significant token sequence.
+    let mut push_kind = |rule: &'static str, parts: Vec<String>, out: &mut Vec<Rewrite>, pure: bool| {
         let text = parts.concat();
-        // the rewrite must leave the significant token sequence unchanged (no tokens merged or split)
+        if pure {
+            out.push(Rewrite { rule, text });
+            return;
+        }
         if let Ok(t2) = lex_g(&text) {
             if significant(&t2) == sig0 {
                 out.push(Rewrite { rule, text });
             }
         }
     };
+    let _ = &sig0;
     for i in 0..toks.len() {
         let ty = toks[i].get_token_type();
         match ty {
-            TokenType::Whitespace => {
+            TokenType::Whitespace if texts[i] != "\n" => {
                 // R1: more / other horizontal whitespace where some is already there
                 if !texts[i].contains('\n') {
                     for rep in ["  ", "\t", " \t "] {
                         let mut p = texts.clone();
                         p[i] = rep.to_string();
-                        push("R1-widen-whitespace", p, &mut out);
+                        push_kind("R1-widen-whitespace", p, &mut out, texts[i].chars().all(|c| c == ' ' || c == '\t'));
                     }
                     // R1: remove it where no list is formed by it
                     let prev = toks[..i].iter().rev().find(|t| !is_trivia(t.get_token_type())).map(|t| t.get_token_type());
@@ -114,28 +138,42 @@ pub fn text_rewrites(src: &str) -> Vec<Rewrite> {
                     if !forms_list {
                         let mut p = texts.clone();
                         p[i] = String::new();
-                        push("R1-remove-whitespace", p, &mut out);
+                        push_kind("R1-remove-whitespace", p, &mut out, false);
                     }
                     // R3: annotation inside existing whitespace
                     let mut p = texts.clone();
                     p[i] = format!("{}@note ", texts[i]);
-                    push("R3-annotation", p, &mut out);
+                    push_kind("R3-annotation", p, &mut out, texts[i].chars().all(|c| c == ' ' || c == '\t'));
                 }
+            }
+            TokenType::Whitespace if texts[i] == "\n" => {
+                // a line break that acts as whitespace (multi-line layout): R2 trailing whitespace on the line before
+                // it, indentation after it; R3 a comment at the end of the line
+                for rep in [" \n", "\t\n", "\n ", "\n\t", " \n "] {
+                    let mut p = texts.clone();
+                    p[i] = rep.to_string();
+                    push_kind("R2-trailing-whitespace", p, &mut out, true);
+                }
+                let mut p = texts.clone();
+                p[i] = " @@ comment\n".to_string();
+                push_kind("R3-comment-line", p, &mut out, true);
             }
             TokenType::Subexpression => {
                 // R2: trailing whitespace on the line before the blank line, spaces on the blank line, extra blank line
                 for rep in [" \n\n", "\t\n\n", "\n \n", "\n\t\n", " \n \n", "\n\n\n", "\n\n "] {
                     let mut p = texts.clone();
                     p[i] = rep.to_string();
-                    push("R2-blank-line-whitespace", p, &mut out);
+                    // trailing whitespace on the line before the blank line is named by the statement; whether spaces
+                    // on the blank line itself keep it blank is not, those variants are applied when the lexer agrees
+                    push_kind("R2-blank-line-whitespace", p, &mut out, texts[i] == "\n\n" && (rep == " \n\n" || rep == "\t\n\n"));
                 }
                 // R3: comment line after the blank line, and on the line before it
                 let mut p = texts.clone();
                 p[i] = "\n\n@@ comment\n".to_string();
-                push("R3-comment-line", p, &mut out);
+                push_kind("R3-comment-line", p, &mut out, false);
                 let mut p = texts.clone();
                 p[i] = " @@ comment\n\n".to_string();
-                push("R3-comment-line", p, &mut out);
+                push_kind("R3-comment-line", p, &mut out, false);
             }
             _ => {}
         }
@@ -147,10 +185,10 @@ pub fn text_rewrites(src: &str) -> Vec<Rewrite> {
                 if !(value_like_end(ty) && can_start_item(nt)) || nt == TokenType::StartSideEffect || ty == TokenType::EndSideEffect {
                     let mut p = texts.clone();
                     p[i] = format!("{} ", texts[i]);
-                    push("R1-insert-space", p, &mut out);
+                    push_kind("R1-insert-space", p, &mut out, false);
                     let mut p = texts.clone();
                     p[i] = format!("{} @note ", texts[i]);
-                    push("R3-annotation", p, &mut out);
+                    push_kind("R3-annotation", p, &mut out, false);
                 }
             }
         }
@@ -385,6 +423,47 @@ fn first_difference<D: Subject>(e: &E, rule: &str) -> Option<(String, String)> {
     None
 }
 
+/// the program text with every single-space whitespace token replaced by a line break (None when there is none)
+fn newline_layout(src: &str) -> Option<String> {
+    let toks = lex_g(src).ok()?;
+    let mut out = String::new();
+    let mut changed = false;
+    for t in &toks {
+        if t.get_token_type() == TokenType::Whitespace && t.get_text() == " " {
+            out.push('\n');
+            changed = true;
+        } else {
+            out.push_str(t.get_text());
+        }
+    }
+    if !changed {
+        return None;
+    }
+    // the edit must not merge or split tokens
+    let t2 = lex_g(&out).ok()?;
+    if significant(&t2) != significant(&toks) {
+        return None;
+    }
+    Some(out)
+}
+
+/// first rewrite of `rule` on the multi-line layout of `e` that differs: (kind, original, rewritten)
+fn first_difference_nl<D: Subject>(e: &E, rule: &str) -> Option<(String, String, String)> {
+    let src = print(e)?;
+    let nl = newline_layout(&src)?;
+    if value_of::<D>(&nl).ok() != value_of::<D>(&src).ok() || tree_of(&nl, false, false) != tree_of(&src, false, false) {
+        return None;
+    }
+    for rw in text_rewrites(&nl) {
+        if rw.rule == rule {
+            if let Some(k) = differs::<D>(&nl, &rw.text, rw.rule) {
+                return Some((k, nl, rw.text));
+            }
+        }
+    }
+    None
+}
+
 const RULES: [&str; 13] = [
     "R1-widen-whitespace",
     "R1-remove-whitespace",
@@ -411,6 +490,29 @@ fn check_program<D: Subject>(cx: &mut Ctx, e: &E, pairs: bool) {
         return;
     }
     let mut texts = text_rewrites(&src);
+    // multi-line layout of the same program: every single space between tokens becomes a line break; it is used as a
+    // second original when it has the same tree and value as the one-line text (a line break is whitespace there)
+    if let Some(nl) = newline_layout(&src) {
+        if value_of::<D>(&nl).ok() == value_of::<D>(&src).ok() && tree_of(&nl, false, false) == tree_of(&src, false, false) {
+            cx.count("multi_line_layouts", 1);
+            for rw in text_rewrites(&nl) {
+                cx.eval();
+                if let Some(kind) = differs::<D>(&nl, &rw.text, rw.rule) {
+                    // canonical witness: shrink the program while some rewrite of its multi-line layout differs the same way
+                    let rule = rw.rule;
+                    let mut fails = |c: &E| matches!(first_difference_nl::<D>(c, rule), Some((ref k, _, _)) if *k == kind);
+                    let w = shrink(e, &mut fails);
+                    let (wo, wt) = first_difference_nl::<D>(&w, rule).map(|x| (x.1, x.2)).unwrap_or((nl.clone(), rw.text.clone()));
+                    cx.violation(
+                        &format!("multi-line/{}/{}", rule, kind),
+                        &format!("{} | {} => {}", D::NAME, crate::props::pipeline::show(&wo), crate::props::pipeline::show(&wt)),
+                        json!({"impl": D::NAME, "rule": rule, "original": wo, "rewritten": wt, "first_seen_original": nl, "first_seen_rewritten": rw.text}),
+                    );
+                    break;
+                }
+            }
+        }
+    }
     let asts: Vec<(&'static str, String)> = ast_rewrites(e).into_iter().filter_map(|(r, ne)| print(&ne).map(|t| (r, t))).collect();
     let singles = texts.clone();
     let mut pair_labels: std::collections::HashMap<String, String> = std::collections::HashMap::new();
@@ -475,8 +577,7 @@ impl Property for C18 {
         "exploration"
     }
     fn size(&self, tier: Tier) -> u64 {
-        let s = spaces(tier);
-        s.t1.len() + s.t3.len()
+        spaces(tier).all().iter().map(|c| c.len()).sum()
     }
     fn describe(&self, tier: Tier, idx: u64) -> String {
         let (c, i) = locate(tier, idx);
@@ -514,7 +615,7 @@ impl Property for C18 {
     fn meta(&self, tier: Tier) -> Meta {
         let s = spaces(tier);
         Meta {
-            rule: format!("every program of the C01 corpora T1 ({}) and T3 up to {} nodes ({}) that runs, x every single application at every applicable position of: R1 widen / remove / insert horizontal whitespace at a token boundary (only where the significant token sequence is unchanged and no list is formed or dissolved), R2 trailing whitespace before a newline, spaces on the blank line, extra blank line, leading/trailing whitespace, R3 annotation inside whitespace or at a boundary, comment lines, R4 parentheses around every complete operand, R5 `[1]` after an atom operand, after a parenthesised operator operand, and before an atom operand; plus pairs of text rewrites for programs of <= 3 nodes (T1: <= 5). Oracle: the final value (input (:a = 1, :b = 2)) on both implementations is unchanged and the parse tree is equal modulo trivia (R1-R3), added groups (R4) and side-effect nodes (R5). Non-trivial = program; distinct by enumeration index.", s.t1.len(), s.t3.max, s.t3.len()),
+            rule: format!("every program of the C01 corpora T1 ({}), T3 up to {} nodes ({}), T4 reapply loops ({}), T5 call nesting ({}) and T6 block endings ({}) that runs - in its one-line text and, where a line break acts as whitespace, in a multi-line layout (every single space a line break; text rewrites only) -, x every single application at every applicable position of: R1 widen / remove / insert horizontal whitespace at a token boundary (only where the significant token sequence is unchanged and no list is formed or dissolved), R2 trailing whitespace before a newline, spaces on the blank line, extra blank line, leading/trailing whitespace, R3 annotation inside whitespace or at a boundary, comment lines, R4 parentheses around every complete operand, R5 `[1]` after an atom operand, after a parenthesised operator operand, and before an atom operand; plus pairs of text rewrites for programs of <= 3 nodes (T1: <= 5). Oracle: the final value (input (:a = 1, :b = 2)) on both implementations is unchanged and the parse tree is equal modulo trivia (R1-R3), added groups (R4) and side-effect nodes (R5). Non-trivial = program; distinct by enumeration index.", s.t1.len(), s.t3.max, s.t3.len(), s.t4.len(), s.t5.len(), s.t6.len()),
             assumptions: vec![
                 "a rewrite is applied only when re-lexing shows the same significant tokens (no tokens merged or split by the edit)".into(),
                 "programs whose original does not run are skipped (nothing to preserve)".into(),
